@@ -336,7 +336,7 @@ def _judge_shard(texts):
             f.write(','.join('{"id":%s,%s' % (json.dumps(i), b[1:]) for (i, b) in texts))
             f.write(']}')
         out, stats = tlc.run_tlc('Judge_Udf', judge.JUDGE_CFG, workers=1, env={'OBS_FILE': path},
-                                 timeout=3600, heap='3g')
+                                 timeout=1800, heap='3g')
     finally:
         os.unlink(path)
     fails = {}
@@ -352,14 +352,23 @@ def _judge_shard(texts):
     return fails, stats
 
 
-def judge_texts(texts, shards=8):
-    """TLC evaluates the clauses: 8 single-worker JVMs side by side (see AGENT_CONVENTIONS)."""
+def judge_texts(texts, jvms=8, batch_bytes=8000000, batch_items=500):
+    """TLC evaluates the clauses: `jvms` single-worker JVMs side by side (see AGENT_CONVENTIONS).
+    A JVM start costs ~1.3 s and the cost per observation grows with the batch (measured
+    1.7 s / 200, 2.3 s / 400, 4.5 s / 680 observations; a 200 MB batch does not finish): batches
+    of about 500 observations / 8 MB."""
     from concurrent.futures import ThreadPoolExecutor
-    if len(texts) < 64:
-        shards = 1
-    parts = [texts[k::shards] for k in range(shards)]
-    parts = [p for p in parts if p]
-    with ThreadPoolExecutor(len(parts)) as ex:
+    parts = []
+    cur, size = [], 0
+    for t in texts:
+        if cur and (size + len(t[1]) > batch_bytes or len(cur) >= batch_items):
+            parts.append(cur)
+            cur, size = [], 0
+        cur.append(t)
+        size += len(t[1])
+    if cur:
+        parts.append(cur)
+    with ThreadPoolExecutor(jvms) as ex:
         rs = list(ex.map(_judge_shard, parts))
     fails = {}
     for f, _ in rs:
@@ -476,8 +485,10 @@ def hist_circumstances(hist):
       reopen_2plus_empty      a Reopen happened while the tree held two or more zero-length files
       reopened_file_link_edit after a Reopen, a name of a file that was in the image at that Reopen
                               was removed, or a hard link to such a file was added
-      removal                 some name was removed (RmFile / RmHardLink / RmDir)"""
-    out = {'reopen_2plus_empty': 'no', 'reopened_file_link_edit': 'no', 'removal': 'no'}
+      removal                 some name was removed (RmFile / RmHardLink / RmDir)
+      file_over_one_iso_extent a file longer than 0xfffff800 bytes (more than one ISO9660 extent) was added"""
+    out = {'reopen_2plus_empty': 'no', 'reopened_file_link_edit': 'no', 'removal': 'no',
+           'file_over_one_iso_extent': 'no'}
     at_reopen_udf = None
     at_reopen_iso = set()
     iso_alive = set()
@@ -495,6 +506,8 @@ def hist_circumstances(hist):
         elif n == 'AddFp':
             if a.get('iso') not in (None, ['-']):
                 iso_alive.add(a['iso'][0])
+            if str(a.get('blob', '')).startswith('big:') and int(a['blob'][4:]) > 0xfffff800:
+                out['file_over_one_iso_extent'] = 'yes'
         elif n in ('RmFile', 'RmHardLink', 'RmDir'):
             out['removal'] = 'yes'
             if n != 'RmDir' and at_reopen_udf is not None and tuple(a['p']) in at_reopen_udf:
@@ -676,58 +689,77 @@ class _Zeros(io.RawIOBase):
         return len(data)
 
 
-def big_file_case(ctx, size, hash_limit=None):
-    """one file of `size` bytes (several allocation descriptors, 64-bit information length)."""
+def big_file_case(ctx, size, hash_limit=None, with_iso=True):
+    """one file of `size` bytes (several allocation descriptors, 64-bit information length),
+    with or without an ISO9660 name."""
     import pycdlib
     t0 = det.real_time()
     work = tempfile.mkdtemp(prefix='verif-c10-')
+    oid = 'big/%s/%s' % (hex(size), 'iso+udf' if with_iso else 'udf-only')
+    hist = [{'a': 'AddFp', 'blob': 'big:%d' % size, 'iso': ['BIG'] if with_iso else ['-'], 'udf': ['big'], 'x': 'ok'},
+            {'a': 'AddFp', 'blob': 'tail', 'iso': ['-'], 'udf': ['u'], 'x': 'ok'}]
+    cov = {'bytes': hex(size), 'iso_name': with_iso}
     try:
         iso = pycdlib.PyCdlib()
         iso.new(interchange_level=3, udf='2.60')
         src = _Zeros(size)
-        iso.add_fp(src, size, iso_path='/BIG.;1', udf_path='/big')
+        kw = {'udf_path': '/big'}
+        if with_iso:
+            kw['iso_path'] = '/BIG.;1'
+        iso.add_fp(src, size, **kw)
         iso.add_fp(io.BytesIO(b'tail'), 4, udf_path='/' + REALISATION['names']['u']['udf'])
         path = os.path.join(work, 'big.iso')
-        with open(path, 'wb') as f:
-            iso.write_fp(f)
-        iso.close()
-        h = hashlib.sha256()
-        if hash_limit is None:
-            pos = 0
-            while pos < size:
-                k = min(1 << 24, size - pos)
-                h.update(src.chunk(pos, k))
-                pos += k
-            want = h.hexdigest()
-        else:
-            half = hash_limit // 2
-            h.update(src.chunk(0, half))
-            h.update(src.chunk(size - half, half))
-            want = 'p:' + h.hexdigest()
-        expect = [{'path': [cps('big')], 'kind': 'file', 'target': [], 'sha': want,
-                   'size': limbs(size)},
-                  {'path': [cps(REALISATION['names']['u']['udf'])], 'kind': 'file', 'target': [],
-                   'sha': hashlib.sha256(b'tail').hexdigest(), 'size': [0, 4]}]
-        expect.sort(key=lambda x: x['path'])
-        with open(path, 'rb') as f:
-            mm = mmap.mmap(f.fileno(), 0, access=mmap.ACCESS_READ)
-            try:
-                rep = udfdec.decode(mm, hash_limit=hash_limit)
-            finally:
-                mm.close()
-        item = {'write': 'ok', 'steps': [{'a': 'AddFp', 'x': 'ok', 'r': 'ok'}],
-                'rep': judge_view(rep), 'expect': expect}
-        hist = [{'a': 'AddFp', 'blob': 'big:%d' % size, 'iso': ['BIG'], 'udf': ['big'], 'x': 'ok'}]
-        meta = {'id': 'big/%s' % hex(size), 'hist': hist, 'cfg': 'udf',
-                'steps': [{'a': 'AddFp', 'x': 'ok', 'r': 'ok', 'k': 0}],
-                'diverged': False, 'write': 'ok', 'ntree': len(rep['tree']), 'facts': facts(rep)}
+        wres = 'ok'
+        try:
+            with open(path, 'wb') as f:
+                iso.write_fp(f)
+        except Exception as e:  # pylint: disable=broad-except
+            from project import exc_class
+            wres = exc_class(e)
+        try:
+            iso.close()
+        except Exception:  # pylint: disable=broad-except
+            pass
+        steps = [{'a': 'AddFp', 'x': 'ok', 'r': 'ok', 'k': 0}, {'a': 'AddFp', 'x': 'ok', 'r': 'ok', 'k': 1}]
+        item = {'write': wres, 'steps': [{'a': st['a'], 'x': st['x'], 'r': st['r']} for st in steps], 'rep': 0}
+        meta = {'id': oid, 'hist': hist, 'cfg': 'udf', 'steps': steps, 'diverged': False, 'write': wres,
+                'ntree': None, 'facts': {}}
+        if wres == 'ok':
+            h = hashlib.sha256()
+            if hash_limit is None:
+                pos = 0
+                while pos < size:
+                    k = min(1 << 24, size - pos)
+                    h.update(src.chunk(pos, k))
+                    pos += k
+                want = h.hexdigest()
+            else:
+                half = hash_limit // 2
+                h.update(src.chunk(0, half))
+                h.update(src.chunk(size - half, half))
+                want = 'p:' + h.hexdigest()
+            expect = [{'path': [cps('big')], 'kind': 'file', 'target': [], 'sha': want, 'size': limbs(size)},
+                      {'path': [cps(REALISATION['names']['u']['udf'])], 'kind': 'file', 'target': [],
+                       'sha': hashlib.sha256(b'tail').hexdigest(), 'size': [0, 4]}]
+            expect.sort(key=lambda x: x['path'])
+            with open(path, 'rb') as f:
+                mm = mmap.mmap(f.fileno(), 0, access=mmap.ACCESS_READ)
+                try:
+                    rep = udfdec.decode(mm, hash_limit=hash_limit)
+                finally:
+                    mm.close()
+            item['rep'] = judge_view(rep)
+            item['expect'] = expect
+            meta['ntree'] = len(rep['tree'])
+            meta['facts'] = facts(rep)
+            fe = [x for x in rep['fes'] if x['file_type'] == 5 and len(x['ads']) > 1]
+            cov.update({'allocation_descriptors': len(fe[0]['ads']) if fe else 0, 'image_sectors': rep['nsect'],
+                        'hash': 'all bytes' if hash_limit is None else
+                                'first and last %d bytes' % (hash_limit // 2)})
+        cov.update({'write': wres, 'wall_s': round(det.real_time() - t0, 1)})
+        ctx.coverage.setdefault('big_files', []).append(cov)
         body = json.dumps(item, sort_keys=True, separators=(',', ':'))
-        fe = [x for x in rep['fes'] if x['file_type'] == 5 and len(x['ads']) > 1]
-        ctx.coverage.setdefault('big_files', []).append({'bytes': hex(size), 'allocation_descriptors': len(fe[0]['ads']) if fe else 0,
-                                    'image_sectors': rep['nsect'], 'wall_s': round(det.real_time() - t0, 1),
-                                    'hash': 'all bytes' if hash_limit is None else
-                                            'first and last %d bytes' % (hash_limit // 2)})
-        return (meta['id'], hashlib.sha256(body.encode()).hexdigest(), body, meta)
+        return (oid, hashlib.sha256(body.encode()).hexdigest(), body, meta)
     finally:
         shutil.rmtree(work, ignore_errors=True)
 
@@ -744,10 +776,12 @@ def plan(tier):
             'sim': [dict(base, Names=['a', 'e', 'u', 'd'], Blobs=['z', 'o', 's', 't'],
                          Targets=['t1', 't2', 't3'], FillKinds=['cross', 'exact', 'two'],
                          MaxEntries=5, MaxLen=9, MaxRefuse=1, MaxGen=2, Dump='final')],
-            'sim_num': 30, 'big': [((2 << 30) + 4097, 1 << 26)]}
+            'sim_num': 30, 'big': [((2 << 30) + 4097, 1 << 26, True)]}
     small = dict(base, Names=['a', 'u'], Blobs=['z', 't'], Targets=['t3'], FillKinds=['cross'],
-                 MaxEntries=4, Dump='all')
+                 MaxEntries=3, Dump='all')
     return {
+        # every accepted history of 4 calls (2 names), every history of 3 calls with one refused
+        # call (3 names, two fill shapes), and the other half of the name/blob pools at depth 3
         'bfs': [dict(small, MaxLen=4, MaxRefuse=0),
                 dict(base, Names=['a', 'u', 'd'], Blobs=['z', 't'], Targets=['t3'], FillKinds=['cross', 'exact'],
                      MaxEntries=4, MaxLen=3, MaxRefuse=1, Dump='all'),
@@ -756,7 +790,8 @@ def plan(tier):
         'sim': [dict(base, Names=['a', 'e', 'u', 'd'], Blobs=['z', 'o', 's', 't'],
                      Targets=['t1', 't2', 't3'], FillKinds=['cross', 'exact', 'two'],
                      MaxEntries=6, MaxLen=12, MaxRefuse=1, MaxGen=3, Dump='final')],
-        'sim_num': 400, 'big': [((3 << 30) + 12345, None), ((4 << 30) + 2049, 1 << 26)]}
+        'sim_num': 200, 'big': [((3 << 30) + 12345, None, True), ((3 << 30) + 1, 1 << 26, False),
+                                 ((4 << 30) + 2049, 1 << 26, True), ((4 << 30) + 2049, 1 << 26, False)]}
 
 
 def run(ctx):
@@ -794,9 +829,9 @@ def run(ctx):
     for n, k in enumerate(order):
         (src, h) = hists[k]
         hid = '%s%05d' % (src, n)
-        # every behaviour without Joliet/Rock Ridge; every third one (and all deep ones) with both
+        # every behaviour without Joliet/Rock Ridge; every third (thorough: fifth) one and all deep ones with both
         jobs.append((hid, h, 'udf'))
-        if src == 's' or n % 3 == 0:
+        if src == 's' or n % (3 if ctx.tier == 'quick' else 5) == 0:
             jobs.append((hid, h, 'udf+jol+rr'))
     t0 = det.real_time()
     mp = multiprocessing.get_context('fork')
@@ -805,9 +840,9 @@ def run(ctx):
     pairs = [x for r in res for x in r]
     print('replayed %d behaviours x configurations -> %d images in %.1fs' % (len(jobs), len(pairs), det.real_time() - t0))
     sys.stdout.flush()
-    for (size, limit) in pl['big']:
+    for (size, limit, with_iso) in pl['big']:
         try:
-            pairs.append(big_file_case(ctx, size, hash_limit=limit))
+            pairs.append(big_file_case(ctx, size, hash_limit=limit, with_iso=with_iso))
         except Exception as e:  # pylint: disable=broad-except
             ctx.coverage.setdefault('big_files', []).append(
                 {'bytes': hex(size), 'not_covered': '%s: %s' % (type(e).__name__, str(e)[:200])})
@@ -822,7 +857,7 @@ def run(ctx):
         uniq.setdefault(key, []).append((oid, body))
     reps = [v[0] for v in uniq.values()]
     t0 = det.real_time()
-    fails, jstats = judge_texts(reps, shards=8)
+    fails, jstats = judge_texts(reps)
     print('TLC judged %d distinct observations (of %d) in %.1fs' % (len(reps), len(pairs), det.real_time() - t0))
     sys.stdout.flush()
     clause_count = {}
